@@ -12,8 +12,17 @@ Definition model_bounds (M : instance) (objs : list objinfo) (x : var) : Z * Z :
   | Obj n => (0, match nth_error objs n with Some oi => oi_ub oi | None => -1 end)
   end.
 
+(* the variables that can be part of a problem of this run *)
+Definition var_exists (M : instance) (objs : list objinfo) (x : var) : bool :=
+  match x with
+  | X _ _ | Alpha _ _ | Beta _ _ | Closure _ => true
+  | AbsDiff k => (1 <=? k) && (k <=? nL M)
+  | Obj n => Nat.ltb n (length objs)
+  end.
+
 Definition in_bounds (M : instance) (objs : list objinfo) (v : assignment) : Prop :=
-  forall x, fst (model_bounds M objs x) <= v x <= snd (model_bounds M objs x).
+  forall x, var_exists M objs x = true ->
+            fst (model_bounds M objs x) <= v x <= snd (model_bounds M objs x).
 
 Definition all_sat (v : assignment) (cs : list constr) : Prop := forallb (sat v) cs = true.
 
